@@ -293,3 +293,34 @@ Proof.
   destruct (auth_sasl_cases k server user secret w r) as [[H E]|H]; [left|right; exact H].
   split; [apply choose_mech_none; exact H|exact E].
 Qed.
+
+(* ---- only SASL-namespace <mechanism/> children advertise ---- *)
+Lemma advertised_spec children m :
+  In m (advertised children) <-> In (s_ns_sasl, s_mechanism, m) children.
+Proof.
+  unfold advertised. rewrite in_map_iff. split.
+  - intros ([[ns local] t] & E & Hin). cbn in E. subst t.
+    apply filter_In in Hin as [Hin Hs]. unfold is_sasl_mech in Hs.
+    apply andb_true_iff in Hs as [Hn Hl]. apply str_eqb_eq in Hn, Hl. subst ns local. exact Hin.
+  - intros Hin. exists (s_ns_sasl, s_mechanism, m). split; [reflexivity|].
+    apply filter_In. split; [exact Hin|]. unfold is_sasl_mech. rewrite !str_eqb_refl. reflexivity.
+Qed.
+
+Lemma foreign_child_ignored k children user secret w r :
+  (forall m, In m (cred_mechs k) -> ~ In (s_ns_sasl, s_mechanism, m) children) ->
+  auth_sasl_features k children user secret w r = ([], ErrPermanent).
+Proof.
+  intros H. apply auth_sasl_no_common. intros m Hm Hin. apply (H m Hm).
+  apply advertised_spec. exact Hin.
+Qed.
+
+Lemma features_written k children user secret w r m payload :
+  fst (auth_sasl_features k children user secret w r) = [auth_element m payload] ->
+  exists m', fst (auth_sasl_features k children user secret w r)
+               = [auth_element m' (plain_payload user secret)] /\
+             In m' (cred_mechs k) /\ In (s_ns_sasl, s_mechanism, m') children.
+Proof.
+  intros Hw. destruct (mech_sound _ _ _ _ _ _ _ _ Hw) as (m' & E & Hf).
+  exists m'. split; [exact E|]. apply first_common_in in Hf as [Hc Hs].
+  split; [exact Hc|]. apply advertised_spec. exact Hs.
+Qed.
